@@ -204,7 +204,7 @@ def run(ctx):
             ref = alone[pos]
             pos += 1
             for step, (a, b) in enumerate(zip(per[i], ref)):
-                if drive.norm(a) != drive.norm(b):
+                if not drive.reply_eq(a, b):
                     violations.append({"key": None, "what": "a session behaves differently when its calls are interleaved with another session's calls "
                                        "than when it runs alone", "history": reqs, "session_history": h[: step + 1], "interleaved": a, "alone": b})
                     break
@@ -216,7 +216,7 @@ def run(ctx):
         b = drive.run_model(all_reqs)
         for (start, ln) in bounds:
             for i in range(start, start + ln):
-                if drive.norm(a[i]) != drive.norm(b[i]):
+                if not drive.reply_eq(a[i], b[i]):
                     disagreements.append({"history": all_reqs[start: i + 1], "impl": a[i], "model": b[i]})
                     break
             if len(disagreements) >= 10:
